@@ -250,7 +250,7 @@ Definition sparen (s : string) : string := "(" +++ s +++ ")".
 Fixpoint text_py (F : ffmt) (np : N -> bool) (want : bool) (e : expr) : string * bool :=
   match e with
   | ECol n => (n, false)
-  | EVal v => if want && num_is_neg v then (sparen (val_text F np v), true) else (val_text F np v, false)
+  | EVal v => if want && prints_with_sign v then (sparen (val_text F np v), true) else (val_text F np v, false)
   | EList vs => ("[" +++ sjoin ", " (map (val_text F np) vs) +++ "]", false)
   | EDict kvs =>
       ("{" +++ sjoin ", " (map (fun kv => val_text F np (fst kv) +++ ": " +++ val_text F np (snd kv)) kvs) +++ "}", false)
